@@ -489,6 +489,28 @@ func (s *state) op(ws []string) string {
 		return s.freshOp(ws)
 	case "O":
 		return s.ofFrom(ws)
+	case "Q":
+		v := s.view(atoi(ws[2]))
+		args := trimUndef([]goja.Value{s.varg(ws[3]), s.iarg(ws[4])})
+		res, err := s.call(v, ws[1], args...)
+		if err != nil {
+			return s.errName(err)
+		}
+		if ws[1] == "includes" {
+			return fmt.Sprint(res.ToBoolean())
+		}
+		return showNum(res)
+	case "k":
+		v := s.view(atoi(ws[1]))
+		res, err := s.call(v, "at", s.iarg(ws[2]))
+		if err != nil {
+			return s.errName(err)
+		}
+		return showNum(res)
+	case "e":
+		return s.visit(ws)
+	case "J":
+		return s.join(ws)
 	case "A":
 		b := s.buf(atoi(ws[1]))
 		args := trimUndef([]goja.Value{s.iarg(ws[2]), s.iarg(ws[3])})
@@ -684,6 +706,149 @@ func (s *state) ofFrom(ws []string) string {
 	out := s.showView(o, "length")
 	s.trackResultView(o)
 	return out
+}
+
+func showItems(items []string) string {
+	all := true
+	for _, it := range items {
+		if it != "undef" {
+			all = false
+		}
+	}
+	if all {
+		return "vals-empty"
+	}
+	return "vals " + strings.Join(items, ",")
+}
+
+func item(v goja.Value) string {
+	return strings.TrimPrefix(showNum(v), "v:")
+}
+
+// visit: the values a callback-taking method hands to its callback (or an iterator yields), in order
+func (s *state) visit(ws []string) string {
+	rt := s.rt
+	name := ws[1]
+	vi, _ := strconv.Atoi(ws[2])
+	v := s.view(vi)
+	detAt, dets := -1, []int(nil)
+	if ws[3] != "_" {
+		h, d := splitBang(ws[3])
+		detAt, _ = strconv.Atoi(h)
+		dets = d
+	}
+	var items []string
+	k := 0
+	step := func(val goja.Value) {
+		items = append(items, item(val))
+		if k == detAt {
+			for _, d := range dets {
+				s.detach(d)
+			}
+		}
+		k++
+	}
+	switch name {
+	case "values", "entries":
+		it, err := s.call(v, name)
+		if err != nil {
+			return s.errName(err)
+		}
+		ito := it.(*goja.Object)
+		for i := 0; i < 100; i++ {
+			r, err := s.call(ito, "next")
+			if err != nil {
+				return s.errName(err)
+			}
+			ro := r.(*goja.Object)
+			if ro.Get("done").ToBoolean() {
+				break
+			}
+			val := ro.Get("value")
+			if name == "entries" {
+				val = val.(*goja.Object).Get("1")
+			}
+			step(val)
+		}
+		return showItems(items)
+	}
+	var ret goja.Value = goja.Undefined()
+	argIdx := 0
+	switch name {
+	case "every":
+		ret = rt.ToValue(true)
+	case "some", "find", "findIndex", "findLast", "findLastIndex":
+		ret = rt.ToValue(false)
+	case "reduce", "reduceRight":
+		argIdx = 1
+		ret = rt.ToValue(0)
+	case "forEach":
+	default:
+		panic("unknown visiting method " + name)
+	}
+	cb := rt.ToValue(func(c goja.FunctionCall) goja.Value {
+		step(c.Argument(argIdx))
+		return ret
+	})
+	args := []goja.Value{cb}
+	if argIdx == 1 {
+		args = append(args, rt.ToValue(0))
+	}
+	if _, err := s.call(v, name, args...); err != nil {
+		return s.errName(err)
+	}
+	return showItems(items)
+}
+
+// join: the element values parsed back from join / toString / toLocaleString
+func (s *state) join(ws []string) string {
+	rt := s.rt
+	name := ws[1]
+	vi, _ := strconv.Atoi(ws[2])
+	v := s.view(vi)
+	var dets []int
+	if ws[3] != "_" {
+		dets = parseDets(ws[3])
+	}
+	var res goja.Value
+	var err error
+	if name == "join" {
+		sep := goja.Value(rt.ToValue(","))
+		if len(dets) > 0 {
+			sep = s.advObj(rt.ToValue(","), dets)
+		}
+		res, err = s.call(v, "join", sep)
+	} else {
+		res, err = s.call(v, name)
+	}
+	if err != nil {
+		return s.errName(err)
+	}
+	isBig := false
+	if c := v.Get("constructor"); c != nil {
+		if n := c.ToObject(rt).Get("name"); n != nil && strings.HasPrefix(n.String(), "Big") {
+			isBig = true
+		}
+	}
+	var items []string
+	for _, piece := range strings.Split(res.String(), ",") {
+		switch {
+		case piece == "":
+			items = append(items, "undef")
+		case isBig:
+			items = append(items, "b"+piece)
+		case piece == "NaN":
+			items = append(items, "nan")
+		default:
+			p := strings.Replace(piece, "Infinity", "Inf", 1)
+			f, perr := strconv.ParseFloat(p, 64)
+			if perr != nil {
+				return "E:Other:unparsable join piece " + piece
+			}
+			items = append(items, fmt.Sprintf("x%016x", math.Float64bits(f)))
+		}
+	}
+	return showItems(items)
 }
 
 // other: any prototype method that does not write to its receiver; results are not compared (the model
